@@ -24,8 +24,11 @@ def greedy_plan(cs, workdir, timeout=3600):
     """TLC on the greedy relation with invariant NoPlan -> (solvable?, plan [1-based action ids], tlc.Result)"""
     tlc.prepare(workdir, render_scenario_tla(cs))
     r = tlc.run(workdir, "NASimPlan", PLAN_CFG % ("greedy", "INVARIANT NoPlan"), workers=1, timeout=timeout, heap="4g")
-    plan = [int(m.group(1)) for m in re.finditer(r'<<\s*"PLAN",\s*(\d+)\s*>>', r.out)]
     violated = "Invariant NoPlan is violated" in r.out
+    # the counterexample: the value of `last` in the successive states of the error trace
+    i = r.out.find("Invariant NoPlan is violated")
+    plan = [int(m.group(1)) for m in re.finditer(r"/\\ last = (\d+)", r.out[i:])] if i >= 0 else []
+    plan = [k for k in plan if k > 0]
     if not violated and not r.completed:
         raise tlc.TLCError("NASimPlan did not complete:\n" + r.tail(30))
     return violated, plan, r
